@@ -10,6 +10,12 @@
 //! `sixel <hex bytes>`               -> elapsed_us  ok width height bytes rss_growth_kb      (Sixel::parse_from, in this thread)
 //! `font <hex bytes>`                -> elapsed_us  ok glyphs height rss_growth_kb           (BitFont::from_bytes)
 //! `calib <n>`                       -> elapsed_us of n printed characters on 80x25 (reference for the one-sided time check)
+//! `c03st <emu09> <w> <h> <cut> <hex bytes>`   the WHOLE input is measured (nothing is set up outside of it); emu09 in the numbering of
+//!     c09.rs (0 ANSI, 1 Avatar). Snapshot after `cut` bytes (end of state prefix + table entry) and at the end (after the probe suffix):
+//!     elapsed_us rss_growth_kb sixel_bytes
+//!     errors_at_cut  <snap>  errors_at_end  <snap>        snap = the observation vector of c09.rs without its class
+//!         cx cy bw bh lw lh tw th nlines mt mb ml mr flags ntabs rowsum tabsum   followed by   maxrow cells hash
+//!     -7 k len_0 .. len_{k-1} (k = min(nlines, 512))  -8 k tab_0 .. (k = min(ntabs, 512))
 use crate::util::unhex;
 use crate::Obs;
 use icy_engine::{ansi, ascii, atascii, avatar, ctrla, mode7, pcboard, petscii, renegade, viewdata, BitFont, Buffer, BufferParser, Caret, Position, Sixel, TextPane};
@@ -54,6 +60,14 @@ pub fn make_parser(emu: i64) -> Box<dyn BufferParser> {
 
 fn cells(buf: &Buffer) -> i64 {
     buf.layers[0].lines.iter().map(|l| l.chars.len() as i64).sum()
+}
+
+fn snap(t: &crate::c09::Term, out: &mut Vec<i64>) {
+    let mut v = Vec::with_capacity(18);
+    t.obs(0, &mut v);
+    out.extend_from_slice(&v[1..]);
+    let max_row = t.buf.layers[0].lines.iter().map(|l| l.chars.len()).max().unwrap_or(0) as i64;
+    out.extend_from_slice(&[max_row, cells(&t.buf), hash(&t.buf)]);
 }
 
 fn hash(buf: &Buffer) -> i64 {
@@ -146,6 +160,56 @@ pub fn run(kind: &str, args: &[&str]) -> Option<Obs> {
                 buf.terminal_state.get_width() as i64,
                 buf.terminal_state.get_height() as i64,
             ])
+        }
+        "c03st" => {
+            let emu: usize = args[0].parse().unwrap();
+            let w: i32 = args[1].parse().unwrap();
+            let h: i32 = args[2].parse().unwrap();
+            let cut: usize = args[3].parse().unwrap();
+            let bytes = unhex(args[4]);
+            let mut t = crate::c09::Term::new(emu, 0, w, h);
+            let rss0 = reset_peak();
+            let t0 = std::time::Instant::now();
+            let mut errors = 0i64;
+            let mut mid: Vec<i64> = Vec::new();
+            for (i, b) in bytes.iter().enumerate() {
+                if i == cut {
+                    mid.push(errors);
+                    snap(&t, &mut mid);
+                }
+                if t.feed(*b) == 1 {
+                    errors += 1;
+                }
+            }
+            let mut sixel_bytes = 0i64;
+            while let Some(hd) = t.buf.sixel_threads.pop_front() {
+                if let Ok(Ok(s)) = hd.join() {
+                    sixel_bytes += s.picture_data.len() as i64;
+                }
+            }
+            let el = t0.elapsed().as_micros() as i64;
+            let growth = (peak_rss_kb() - rss0).max(0);
+            if mid.is_empty() {
+                mid.push(errors);
+                snap(&t, &mut mid);
+            }
+            let mut out = vec![el, growth, sixel_bytes];
+            out.extend_from_slice(&mid);
+            out.push(errors);
+            snap(&t, &mut out);
+            let l = &t.buf.layers[0];
+            out.push(-7);
+            out.push(l.lines.len().min(512) as i64);
+            for ln in l.lines.iter().take(512) {
+                out.push(ln.chars.len() as i64);
+            }
+            let tabs = t.buf.terminal_state.get_tabs();
+            out.push(-8);
+            out.push(tabs.len().min(512) as i64);
+            for x in tabs.iter().take(512) {
+                out.push(*x as i64);
+            }
+            Ok(out)
         }
         "load" => {
             let ext = args[0];
